@@ -46,6 +46,10 @@ fn branch_goals() -> Vec<G> {
         G::Conde(vec![vec![G::Eq(x.clone(), T::I(1))], vec![G::Eq(x.clone(), T::I(3))]]),
         G::Project(vec![0], vec![G::Eq(y.clone(), T::V(0))]),
         G::Fail,
+        // unifications that fail PART-WAY: a tentative binding (x -> 2; x -> 3, y -> 3) has been
+        // made when the mismatch is found, and dies with this branch only
+        G::Eq(T::list(vec![x.clone(), T::I(1)]), T::list(vec![T::I(2), T::I(3)])),
+        G::Eq(T::list(vec![x.clone(), y.clone(), T::I(1)]), T::list(vec![T::I(3), T::I(3), T::I(2)])),
     ]
 }
 
